@@ -160,6 +160,7 @@ spifconf_register_builtin(char *name, spifconf_func_ptr_t ptr)
     if (++builtin_idx == builtin_cnt) {
         builtin_cnt *= 2;
         builtins = (spifconf_func_t *) REALLOC(builtins, sizeof(spifconf_func_t) * builtin_cnt);
+        memset(builtins + builtin_idx, 0, sizeof(spifconf_func_t) * (builtin_cnt - builtin_idx));
     }
     return (builtin_idx - 1);
 }
